@@ -60,11 +60,14 @@ TrWrite ==
 TrEnd == /\ Live("End") /\ UNCHANGED st
          /\ Note(Cl(\A t \in 1..NTP : Ev.tps[t] = 0 \/ st.phase[Ev.run][t] = "written",
                     "EveryTimePointWritten"))
+\* a clone of the input was edited all over between two runs
+TrClone == /\ Live("Clone") /\ UNCHANGED st
+           /\ Note(Cl(Ev.post = st.parsed[Ev.run], "EditingACloneLeavesTheInputUnchanged"))
 TrCrash == Live("Crash") /\ UNCHANGED st /\ Note({"RunsWithoutError"})
 Report == /\ ~done /\ l > Len(T.ev)
           /\ PrintT(<<"VERDICT", tid, IF verdict = {} THEN "accept" ELSE "reject",
                       IF firstbad # 0 THEN firstbad ELSE l - 1, verdict>>)
           /\ done' = TRUE /\ UNCHANGED <<tid, l, verdict, firstbad, st>>
-Next == TrParse \/ TrBuild \/ TrSweep \/ TrWrite \/ TrEnd \/ TrCrash \/ Report
+Next == TrParse \/ TrBuild \/ TrSweep \/ TrWrite \/ TrEnd \/ TrClone \/ TrCrash \/ Report
 Spec == Init /\ [][Next]_vars
 =============================================================================
